@@ -189,7 +189,14 @@ func runC12(c c12Case, ev *Ev) error {
 	}
 	dies := len(c.Rounds) > 0 && c.Rounds[len(c.Rounds)-1].K == 0
 	// let the script play: every round takes at most hb interval + (N+1) * resp_timeout
-	budget := time.Duration(len(c.Rounds)+1)*(time.Duration(c.HBMs)*time.Millisecond+time.Duration(c.N+1)*resp) + 300*time.Millisecond
+	// (three times that and two seconds on top: the loop below ends as soon as the script is through, so the slack
+	// only costs time when something is wrong - on a machine shared with other runs the agent's timers fire late,
+	// and a budget cut to the nominal times made five shards report "given up early" at the same instant)
+	budget := 3*time.Duration(len(c.Rounds)+1)*(time.Duration(c.HBMs)*time.Millisecond+time.Duration(c.N+1)*resp) + 2*time.Second
+	if dies && c.Sess == 0 {
+		// nothing tells when a script that ends with a dying peer is through: nominal times plus a second
+		budget = time.Duration(len(c.Rounds)+1)*(time.Duration(c.HBMs)*time.Millisecond+time.Duration(c.N+1)*resp) + time.Second
+	}
 	deadline := time.Now().Add(budget)
 	var lastDel time.Time
 	for time.Now().Before(deadline) {
